@@ -19,6 +19,15 @@ lists); then repeats a sample on copies of the fonts whose GSUB / GPOS / GDEF / 
 corrupted. One Font object serves all consecutive calls on a font (also after a call that returned
 Err). Every sequence map_glyphs -> shape -> glyph_positions runs supervised (panic, CPU budget,
 process death are data) and is projected into one event.
+TLC (MC_ShaperFonts): enumerates font CASES - graphs of contextual lookups that name each other (cycles
+of 1..n lookups through GSUB type 5 / 6, GPOS type 7 / 8 and Extension lookups, chains one below / at / above
+the recursion limit) together with a model of the recursion budget that bounds them (invariants Bounded,
+Outcome, a decreasing measure inside Next), and the parameters of fonts shaped through `morx` (ligature
+subtables: components x LAST / STORE arrangements x DONT_ADVANCE; contextual, noncontextual, several chains;
+named tables that are adversarial for totality).  c02_shape/synth2.rs turns each case into a font that is
+shaped with every text-class string over its roles; seeded random morx programs are added.
+A worker forks one child per stretch of jobs; a shared counter tells which job a dead child (stack overflow,
+abort, kill) or a child over its CPU budget was executing: that job gets an Abort / Timeout event.
 TLC (Trace_Shaper): judges every event with Shaper!CallFailures.
 """
 import concurrent.futures
@@ -49,6 +58,12 @@ ASSUMPTIONS = [
     "one Font object is reused for consecutive calls on the same font bytes (a fresh one after a panic); "
     "independence from call history is property C03",
     "attachment indices above 2^30 are logged as 2^30",
+    "fonts shaped through morx (tables of at most eight states, texts of at most six glyphs) have a thread-CPU "
+    "budget of 0.3 s per call sequence; after two timeouts or three process deaths on one font (one corruption of "
+    "a font) its remaining jobs are recorded as not executed, after 60 in one shard the rest of the shard",
+    "a lookup graph with a cycle and a morx table with a DONT_ADVANCE cycle are loadable fonts inside the "
+    "quantifier (structurally valid tables); which of Ok / Err they get is not demanded, only a returned "
+    "well-formed run; the deleted glyph 0xFFFF of AAT is a glyph id at or above the glyph count",
 ]
 
 # facts measured on the returned runs (o.f) that must occur in every run of the check: each names a
@@ -76,6 +91,34 @@ NEEDED_FACTS = [
     "synth_frac_nontrivial", "synth_marklig_nontrivial", "synth_mark_nontrivial", "synth_curs_nontrivial",
     "synth_ctx_nontrivial", "synth_edge_nontrivial", "synth_extreme_nontrivial", "synth_vert_nontrivial",
     "synth_tuple_nontrivial",
+    # second strengthening: lookup graphs and morx (measured on returned runs, as the ones above)
+    "synth_lkp_nontrivial", "synth_morx_nontrivial", "synth_morxadv_nontrivial", "synth_morxrnd_nontrivial",
+    "lkp_shape_err", "lkp_chain_terminal_applied", "morx_ligature_formed", "morx_ligature_at_run_end",
+    "morx_ligature_at_run_start", "morx_ligature_inside_run", "morx_contextual_substitution",
+    "morx_noncontextual_substitution", "morx_shape_err",
+]
+
+# counters of the PLAN (computed by the harness from its inputs: fonts built from the TLC font cases x the TLC
+# text strings), required in every run whatever allsorts returns
+NEEDED_PLAN = [
+    "plan_fonts_lkp", "plan_fonts_morx", "plan_fonts_morxadv", "plan_fonts_morxrnd",
+    "plan_jobs_lkp_gsub_cycle", "plan_jobs_lkp_gpos_cycle", "plan_jobs_lkp_gsub_chain", "plan_jobs_lkp_gpos_chain",
+    "plan_jobs_lkp_context_only", "plan_jobs_lkp_chain_only", "plan_jobs_lkp_mixed_context_chain",
+    "plan_jobs_lkp_through_extension", "plan_jobs_lkp_two_records_per_node", "plan_jobs_lkp_text_matches",
+    "plan_jobs_lkp_cycle_len1", "plan_jobs_lkp_cycle_len2", "plan_jobs_lkp_cycle_len3",
+    "plan_jobs_lkp_chain_len2", "plan_jobs_lkp_chain_len3", "plan_jobs_lkp_chain_len4",
+    "plan_corrupt_jobs_lkp", "plan_corrupt_jobs_morx",
+    "plan_jobs_morx_ligature", "plan_jobs_morx_contextual", "plan_jobs_morx_noncontextual", "plan_jobs_morx_several_chains",
+    "plan_jobs_morx_lig_components_2", "plan_jobs_morx_lig_components_3", "plan_jobs_morx_lig_components_4",
+    "plan_jobs_morx_lig_pattern_L", "plan_jobs_morx_lig_pattern_LS", "plan_jobs_morx_lig_pattern_SM",
+    "plan_jobs_morx_lig_pattern_SA", "plan_jobs_morx_lig_pattern_N", "plan_jobs_morx_lig_pattern_NS",
+    "plan_jobs_morx_lig_action_entry_dont_advance", "plan_jobs_morx_lig_failure_dont_advance",
+    "plan_jobs_morx_lig_skipped_class", "plan_jobs_morx_action_list_without_last",
+    "plan_jobs_morx_ligature_at_start", "plan_jobs_morx_ligature_in_middle", "plan_jobs_morx_ligature_at_end",
+    "plan_jobs_morx_ligature_at_end_dont_advance", "plan_jobs_morx_ligature_whole_text",
+    "plan_jobs_morx_components_left_at_end_of_text", "plan_jobs_morx_ctx_dont_advance_chain",
+    "plan_jobs_morx_dont_advance_cycle", "plan_jobs_morx_dont_advance_chain_terminating",
+    "plan_jobs_morx_index_at_table_end", "plan_jobs_morx_deleted_glyph", "plan_jobs_morx_random_program",
 ]
 
 FAMILY = {"arab": "Arabic", "syrc": "Syriac", "khmr": "Khmer", "mymr": "Myanmar", "mym2": "Myanmar",
@@ -98,10 +141,13 @@ def _key(m):
     font_state = "intact" if a["wf"] else "corrupt"
     fails = sorted(m["fails"])
     tot = [f for f in fails if f.startswith("Total.")]
+    # how the font is shaped (GSUB | morx | morx/<subtable type> | none): a call that does not return has no
+    # panic site, a run that fails a clause has none either
+    via = a.get("via") or "-"
     if tot:
-        site = _panic_class(o["msg"]) if tot[0].endswith("Panic") else "-"
+        site = _panic_class(o["msg"]) if tot[0].endswith("Panic") else via
         return "%s|%s|%s|%s" % (fam, font_state, tot[0], site)
-    return "%s|%s|%s" % (fam, font_state, ",".join(fails))
+    return "%s|%s|%s|%s" % (fam, font_state, ",".join(fails), via)
 
 
 def _hex(cps):
@@ -143,21 +189,40 @@ def _chunks(ctx, files, max_lines):
     return parts, n_events
 
 
-def _judge(ctx, parts, tag, pool=8):
+def _judge(ctx, parts, tag, pool=8, errors=None):
+    """Judge every part; a part whose judge fails is recorded in `errors` (the others still count)."""
     def one(kf):
         k, f = kf
-        return vlib.run_tlc(ctx, "Trace_Shaper", "Trace_Shaper.cfg", "%s.%d" % (tag, k), workers=1, timeout=1800,
-                            xmx="4g", env_extra={"TRACE": f})
+        try:
+            return vlib.run_tlc(ctx, "Trace_Shaper", "Trace_Shaper.cfg", "%s.%d" % (tag, k), workers=1, timeout=1800,
+                                xmx="4g", env_extra={"TRACE": f})
+        except vlib.ToolError as e:
+            if errors is None:
+                raise
+            errors.append("judge of %s failed: %s" % (os.path.basename(f), str(e)[:400]))
+            return None
     total, mism = 0, []
     with concurrent.futures.ThreadPoolExecutor(max_workers=pool) as ex:
         for res in ex.map(one, list(enumerate(parts))):
+            if res is None:
+                continue
             total += res.distinct - 1
             mism.extend(json.loads(x) for x in res.printed.get("MISMATCH", []))
     return total, mism
 
 
+def _synthetic_base(a):
+    """A conforming event that owes nothing to what allsorts returned: the inputs `a` of a recorded job with a
+    hand-made observation (f + acute, the mark attached to the base)."""
+    a = dict(a)
+    a.update({"wf": True, "ng": 27, "corrupt": "", "text": [0x66, 0x301], "cls": ["Lf", "Mk"], "via": "GSUB"})
+    o = {"map": "Ok", "mapped": [[2, [0x66]], [11, [0x301]]], "shape": "Ok",
+         "run": [[2, [0x66], "none", -1], [11, [0x301], "mark", 0]], "pos": "Ok", "npos": 2, "msg": "", "f": {}}
+    return {"i": 10 ** 9 - 1, "case": "selftest-base", "ev": "Shape", "a": a, "o": o}
+
+
 def _planted(base):
-    """Four corrupted copies of a real event with an attachment: each must be rejected for its own clause."""
+    """Corrupted copies of a conforming event: each must be rejected for its own clause."""
     out = []
     n = len(base["o"]["run"])
 
@@ -184,93 +249,147 @@ def _planted(base):
     e = cp("npos", 4)
     e["o"]["npos"] = n + 1
     out.append(e)
+    # a process that died in the job / a job over its CPU budget, as the supervisor records them
+    e = cp("abort", 5)
+    e["o"].update({"mapped": [], "shape": "Abort", "run": [], "pos": "Skipped", "npos": -1, "msg": "the process died in this job: signal 6"})
+    out.append(e)
+    e = cp("timeout", 6)
+    e["o"].update({"mapped": [], "shape": "Timeout", "run": [], "pos": "Skipped", "npos": -1, "msg": "CPU budget exceeded"})
+    out.append(e)
     return out, {"selftest-attach": "AttachInRun", "selftest-chars": "CharsFromInput", "selftest-gid": "GidBelowCount",
-                 "selftest-panic": "Total.shape.Panic", "selftest-npos": "PositionsLength"}
+                 "selftest-panic": "Total.shape.Panic", "selftest-npos": "PositionsLength",
+                 "selftest-abort": "Total.shape.Abort", "selftest-timeout": "Total.shape.Timeout"}
 
 
 def run(ctx):
     binp = vlib.build_harness("c02_shape")
     cfg = "MC_Shaper_quick.cfg" if ctx.quick else "MC_Shaper_thorough.cfg"
+    fcfg = "MC_ShaperFonts_quick.cfg" if ctx.quick else "MC_ShaperFonts_thorough.cfg"
     cases_path = ctx.path("cases.ndjson")
     unsorted_path = ctx.path("cases.unsorted.ndjson")
+    fonts_path = cases_path + ".fonts"      # the harness looks for the font cases next to the text cases
     n_cases = [0]
-    with open(unsorted_path, "w") as fc:
-        def sink(tag, payload):
-            if tag == "CASE":
-                fc.write(payload + "\n")
-                n_cases[0] += 1
-        mc = vlib.run_tlc(ctx, "MC_Shaper", cfg, "mc", workers=8, timeout=600 if ctx.quick else 1500, sink=sink)
+    font_cases = []
+
+    def font_sink(tag, payload):
+        if tag == "CASE":
+            font_cases.append(payload)
+    # the two generators run side by side (the font cases take about a second)
+    with concurrent.futures.ThreadPoolExecutor(max_workers=1) as side:
+        fut = side.submit(vlib.run_tlc, ctx, "MC_ShaperFonts", fcfg, "mcfonts", 2, 600, None, None, "2g", False, font_sink)
+        with open(unsorted_path, "w") as fc:
+            def sink(tag, payload):
+                if tag == "CASE":
+                    fc.write(payload + "\n")
+                    n_cases[0] += 1
+            mc = vlib.run_tlc(ctx, "MC_Shaper", cfg, "mc", workers=6, timeout=600 if ctx.quick else 1500, sink=sink)
+        mcf = fut.result()
     ctx.note("MC_Shaper: %d states generated, %d distinct, depth %d, %d class strings (%.1fs)" %
              (mc.generated, mc.distinct, mc.depth, n_cases[0], mc.wall))
-    if n_cases[0] == 0:
+    ctx.note("MC_ShaperFonts: %d states generated, %d distinct, depth %d, %d font cases (%.1fs)" %
+             (mcf.generated, mcf.distinct, mcf.depth, len(font_cases), mcf.wall))
+    if n_cases[0] == 0 or not font_cases:
         raise vlib.ToolError("no CASE lines generated")
     # TLC's workers print in a different order on every run; the plan hashes case indices, so the
-    # case file is put in a canonical order (the run depends on the seed only)
+    # case files are put in a canonical order (the run depends on the seed only)
     import subprocess
     subprocess.check_call(["sort", "-o", cases_path, unsorted_path], env=dict(os.environ, LC_ALL="C"))
     os.remove(unsorted_path)
+    font_cases.sort()
+    with open(fonts_path, "w") as f:
+        f.write("\n".join(font_cases) + "\n")
+    fc_objs = [json.loads(x) for x in font_cases]
+    lkp = [c for c in fc_objs if c["fam"] == "lkp"]
+    # what TLC says about the font cases (TLC data, independent of allsorts)
+    tlc_counts = {
+        "font_cases": len(fc_objs),
+        "lookup_graphs": len(lkp),
+        "lookup_graph_cycles": sum(1 for c in lkp if c["shape"] == "cycle"),
+        "lookup_graph_chains": sum(1 for c in lkp if c["shape"] == "chain"),
+        "lookup_graphs_model_reaches_limit": sum(1 for c in lkp if c["hit"]),
+        "lookup_graphs_model_stays_within_limit": sum(1 for c in lkp if not c["hit"]),
+        "gsub_chains_exactly_at_limit": sum(1 for c in lkp if c["shape"] == "chain" and c["tbl"] == "gsub" and c["depth"] == 3 and not c["hit"]),
+        "gsub_chains_one_above_limit": sum(1 for c in lkp if c["shape"] == "chain" and c["tbl"] == "gsub" and len(c["kinds"]) == 4),
+        "gsub_chains_one_below_limit": sum(1 for c in lkp if c["shape"] == "chain" and c["tbl"] == "gsub" and len(c["kinds"]) == 2),
+        "cycles_of_context_lookups_only": sum(1 for c in lkp if c["shape"] == "cycle" and all(k.endswith("C") for k in c["kinds"])),
+        "cycles_of_chain_lookups_only": sum(1 for c in lkp if c["shape"] == "cycle" and all(k.endswith("H") for k in c["kinds"])),
+        "cycles_through_extension": sum(1 for c in lkp if c["shape"] == "cycle" and any(k.startswith("X") for k in c["kinds"])),
+        "morx_font_cases": sum(1 for c in fc_objs if c["fam"] == "mx"),
+        "morx_ligature_cases": sum(1 for c in fc_objs if c.get("kind") == "lig"),
+        "morx_adversarial_cases": sum(1 for c in fc_objs if c.get("kind") == "adv"),
+    }
+    zero = [k for k, v in tlc_counts.items() if not v]
+    if zero:
+        raise vlib.ToolError("the font case generator is vacuous: %s" % zero)
 
     outdir = ctx.path("traces")
     nworkers = 8
     rep = vlib.run_harness(binp, ["run", ctx.tier, ctx.seed, cases_path, outdir, nworkers], timeout=3000)
     ctx.note("harness: %s" % json.dumps(rep))
-    shard_files = sorted(os.path.join(outdir, f) for f in os.listdir(outdir) if re.match(r"trace\.\d+\.ndjson$", f))
+    shard_files = sorted((os.path.join(outdir, f) for f in os.listdir(outdir) if re.match(r"trace\.\d+\.ndjson$", f)),
+                         key=lambda x: int(re.search(r"trace\.(\d+)\.", x).group(1)))
     parts, n_events = _chunks(ctx, shard_files, 60000)
     if n_events != rep["plan"]:
         raise vlib.ToolError("plan has %d jobs, traces hold %d events" % (rep["plan"], n_events))
+    # errors that must not mask a violation: they are raised at the end, and only when nothing new was found
+    deferred = []
+    # every font case became a font of the plan (inputs only)
+    n_case_fonts = rep.get("plan_fonts_lkp", 0) + rep.get("plan_fonts_morx", 0) + rep.get("plan_fonts_morxadv", 0)
+    if n_case_fonts != len(fc_objs):
+        deferred.append("%d font cases but %d fonts of the plan are built from them" % (len(fc_objs), n_case_fonts))
+    vac_plan = [k for k in NEEDED_PLAN if not rep.get(k)]
+    if vac_plan:
+        deferred.append("the plan is vacuous: no job with %s" % vac_plan)
 
-    # binding self-check: corrupted copies of a real event must be rejected, each for its own clause
-    base = None
+    # binding self-check: corrupted copies of a conforming event must be rejected, each for its own clause.
+    # The conforming event is hand-made on the inputs of a recorded job (nothing allsorts returned is used).
+    first_a = None
     samples = []
     with open(parts[0]) as f:
         for ln in f:
             e = json.loads(ln)
+            if first_a is None:
+                first_a = e["a"]
             run_ = e["o"]["run"]
-            if e["o"]["shape"] == "Ok" and e["o"]["pos"] == "Ok" and e["a"]["wf"] and len(run_) >= 2 and \
-                    any(g[2] in ("mark", "over", "curs") for g in run_):
-                if base is None:
-                    base = e
-                elif len(samples) < 2 and e["a"]["cls"] != base["a"]["cls"]:
-                    samples.append(e)
-                else:
-                    break
-    if base is None:
-        raise vlib.ToolError("no event with an attachment in the first part: trace is vacuous")
+            if len(samples) < 3 and e["o"]["shape"] == "Ok" and e["o"]["pos"] == "Ok" and e["a"]["wf"] and len(run_) >= 2 and \
+                    any(g[2] in ("mark", "over", "curs") for g in run_) and all(e["a"]["cls"] != x["a"]["cls"] for x in samples):
+                samples.append(e)
+            if len(samples) >= 3:
+                break
+    base = _synthetic_base(first_a)
     planted, expect = _planted(base)
     pp = ctx.path("planted.ndjson")
     vlib.write_ndjson(pp, planted + [base])
     parts.append(pp)
 
-    total, mism = _judge(ctx, parts, "judge", pool=8)
+    total, mism = _judge(ctx, parts, "judge", pool=8, errors=deferred)
     ctx.note("judge: %d events, %d non-conforming" % (total, len(mism)))
     for f in parts:
         if ".part" in os.path.basename(f):
             os.remove(f)  # copies of the shard traces (which stay for triage)
     if total != n_events + len(planted) + 1:
-        raise vlib.ToolError("judge consumed %d events, expected %d" % (total, n_events + len(planted) + 1))
+        deferred.append("judge consumed %d events, expected %d" % (total, n_events + len(planted) + 1))
 
     seen = {}
     by_key = {}
+    counts = {}
     for m in mism:
         if m["case"].startswith("selftest-"):
             seen[m["case"]] = m["fails"]
             continue
         k = _key(m)
+        counts[k] = counts.get(k, 0) + 1
         # the smallest reproduction per key
         if k not in by_key or len(m["a"]["text"]) < len(by_key[k]["a"]["text"]):
             by_key[k] = m
-        by_key[k].setdefault("_count", 0)
-    counts = {}
-    for m in mism:
-        if not m["case"].startswith("selftest-"):
-            counts[_key(m)] = counts.get(_key(m), 0) + 1
     for name, clause in expect.items():
         if clause not in seen.get(name, []):
-            raise vlib.ToolError("binding self-check failed: planted event %s was not rejected for %s (got %s)"
-                                 % (name, clause, seen.get(name)))
+            deferred.append("binding self-check failed: planted event %s was not rejected for %s (got %s)"
+                            % (name, clause, seen.get(name)))
+    if "selftest-base" in seen:
+        deferred.append("binding self-check failed: the conforming hand-made event was rejected for %s" % seen["selftest-base"])
     violations = []
     for k, m in sorted(by_key.items()):
-        m.pop("_count", None)
         m["occurrences_in_this_run"] = counts[k]
         m["seed"] = ctx.seed
         violations.append(_mk_viol(m))
@@ -279,13 +398,16 @@ def run(ctx):
               "jobs_on_synthesized_fonts", "jobs_text_classes_on_repository_fonts"] + ["f_" + k for k in NEEDED_FACTS]
     vac = [k for k in needed if not rep.get(k)]
     if vac:
-        # a call that panics returns no run, so a violation can empty a counter: the violation is the
-        # verdict then, and the vacuity of the rest is a tool error only when nothing new was found
+        # a call that panics returns no run, so a violation can empty a counter measured on returned runs
+        deferred.append("vacuous exploration: no event with %s" % vac)
+    if deferred:
         known = vlib.load_known(ctx.prop)
         if any(v.key not in known for v in violations):
-            ctx.note("vacuity counters at zero (calls that would feed them did not return): %s" % vac)
+            # the violation is the verdict; what else went wrong is noted
+            for d in deferred:
+                ctx.note("not raised because a violation was found: %s" % d)
         else:
-            raise vlib.ToolError("vacuous exploration: no event with %s" % vac)
+            raise vlib.ToolError("; ".join(deferred))
 
     coverage = {
         "evaluations": n_events,
@@ -297,28 +419,38 @@ def run(ctx):
                 "synthesized font whose glyph roles cover it (short strings and fractions on frac fonts: all "
                 "configurations of the font, longer ones: one) and x the repository fonts of the default shaper "
                 "(short strings: six special-path configurations, strings with a fraction: the frac configuration, "
-                "the rest sampled by seeded hash); plus seeded corruptions of the layout tables of repository and "
-                "synthesized fonts; each job is distinct by construction; a job is non-trivial when shaping changed "
-                "the glyph sequence, placed or attached a glyph, or returned Err",
-        "samples": [base] + samples,
-        "states": mc.distinct,
-        "transitions": mc.generated,
+                "the rest sampled by seeded hash); every font case of MC_ShaperFonts (lookup graphs: strings up to 3 / 4 "
+                "classes, morx fonts: up to the bound, adversarial morx tables: up to 3 / 4) and seeded random morx "
+                "programs; plus seeded corruptions of the layout tables of repository and synthesized fonts; each job "
+                "is distinct by construction; a job is non-trivial when shaping changed the glyph sequence, placed or "
+                "attached a glyph, or returned Err",
+        "samples": samples if samples else [base],
+        "states": mc.distinct + mcf.distinct,
+        "transitions": mc.generated + mcf.generated,
         "traces_validated_against_impl": n_events,
         "class_strings": n_cases[0],
+        "font_cases_from_tlc": tlc_counts,
         "fonts": rep.get("fonts"),
         "synthesized_fonts": rep.get("synth_fonts"),
         "events_on_synthesized_fonts": rep.get("jobs_on_synthesized_fonts"),
         "events_text_classes": rep.get("jobs_text_classes"),
         "facts_reached": {k[2:]: v for k, v in sorted(rep.items()) if k.startswith("f_")},
+        "plan_counters": {k: v for k, v in sorted(rep.items()) if k.startswith("plan_")},
+        "process_deaths_attributed_to_a_job": rep.get("aborts"),
+        "cpu_budget_exceeded": rep.get("timeouts"),
+        "jobs_not_executed_after_repeated_deaths": rep.get("jobs_abandoned_after_deaths"),
         "events_on_corrupted_fonts": ctx.corrupt_events,
         "harness_counters": rep,
         "non_conforming_events": len(mism) - len(seen),
         "distinct_violation_keys": len(by_key),
-        "binding_selfcheck": "five corrupted copies of a recorded event rejected, each for its own clause",
+        "binding_selfcheck": "seven corrupted copies of a hand-made conforming event rejected, each for its own clause "
+                             "(attachment, characters, glyph id, panic, positions length, process death, timeout); "
+                             "the conforming event accepted",
         "exhaustive": False,
-        "explanation": "engine model exhaustively checked by TLC (config %s); class strings exhaustive up to the bound, "
-                       "their concretisation and the font/configuration product are sampled as described in rule; "
-                       "synthesized fonts x text-class strings over their roles are exhaustive up to the bound" % cfg,
+        "explanation": "engine model and recursion-budget model exhaustively checked by TLC (configs %s, %s); class strings "
+                       "and font cases exhaustive up to the bounds, their concretisation and the font/configuration product "
+                       "are sampled as described in rule; synthesized fonts x text-class strings over their roles are "
+                       "exhaustive up to the bound (with the length caps named in rule)" % (cfg, fcfg),
     }
     vlib.finish(ctx, LEVEL, coverage, violations, ASSUMPTIONS)
 
